@@ -32,4 +32,25 @@ func probes(w *world) {
 	}
 	fmt.Fprintf(os.Stderr, "F12 probe: 40 runs, false header committed %d, liar banned %d, silent peer banned %d, honest banned %d\n",
 		bad, liarBanned, silentBanned, honestBanned)
+
+	// suspected: the all-zero filter hash is the "unset" sentinel of
+	// checkForCFHeaderMismatch, so a peer advertising it can escape the mismatch
+	// test depending on the map order.  One honest peer, one peer advertising
+	// the zero hash (and serving nothing).
+	zbad, zban, zerr := 0, 0, 0
+	for i := 0; i < 40; i++ {
+		w.reset(nil)
+		w.begin("tip", 2, true, 3, 2, " probe zero")
+		if ret := w.tipRound(2, true, []string{"honest", "zero"}); ret != "nil" {
+			zerr++
+		}
+		ft, _, tip := w.storeTips()
+		if ft == 3 && tip != w.trueHdr[len(w.trueHdr)-1] {
+			zbad++
+		}
+		if w.v.IsBanned(addr(2)) {
+			zban++
+		}
+	}
+	fmt.Fprintf(os.Stderr, "zero-hash probe: 40 runs, false header committed %d, zero-hash peer banned %d, round errors %d\n", zbad, zban, zerr)
 }
